@@ -613,6 +613,7 @@ def fuzz_custom(tier: str, seed: int):
             res.evaluations += r["evaluations"]
             res.discards.update(r["discards"])
             res.tags.update(r["tags"])
+            res.nontrivial |= set(r.get("nontrivial", []))
             res.failure_counts.update(Counter(r["failure_counts"]))
             for f in r["failures"]:
                 f["sub"] = "fuzz"  # replay: prop_fuzz_replay runs all mutation sub-checks on the case
